@@ -141,3 +141,16 @@ func TestRedisPair(t *testing.T) {
 	}
 	fmt.Printf("SCENARIOS-RUN %d\n", n)
 }
+
+// TestJwks replays behaviours of KeySource.tla ($VERIF_IN) into the real DefaultJWKSProvider (real time, 1 s refresh interval).
+func TestJwks(t *testing.T) {
+	in, out := os.Getenv("VERIF_IN"), os.Getenv("VERIF_OUT")
+	if in == "" || out == "" {
+		t.Skip("VERIF_IN / VERIF_OUT not set")
+	}
+	n, err := runJwksFile(in, out)
+	if err != nil {
+		t.Fatalf("key-source driver: %v (after %d scenarios)", err, n)
+	}
+	fmt.Printf("SCENARIOS-RUN %d\n", n)
+}
